@@ -67,7 +67,8 @@ def opScan (j : Json) : Json :=
     let idxs := List.range (n + 3)
     Json.mkObj [("state", jsonOfSt s),
       ("includes", toJson (idxs.filter (Scan.includes s))),
-      ("is_last", toJson (idxs.filter (Scan.isLast s endIdx)))]
+      ("is_last", toJson (idxs.filter (Scan.isLast s endIdx))),
+      ("is_last_raises", toJson (idxs.filter (Scan.isLastRaises s)))]
 
 /-! scripted matcher: the harness records what the real matcher answered and which flags it
     left behind at each call; the model's run loop is driven by that script. -/
